@@ -414,6 +414,98 @@ def check_parser_by_folding(ctx, pt):
         ctx.fail('C18.R11', 'read_policy_from_file|%s' % key, site, 'the policy file reader %s for %d of %d model documents, e.g.: %s' % (key, len(dns), n, '; '.join(dns[:3])))
 
 
+
+def shadow_helpers_by_shape(rfn, dfn, graphs, pos_map, pos_store):
+    """the spelling the helpers have on the pinned tree (fallback when they cannot be folded)"""
+    rg, rrd = graphs['restore_or_delete_policy']
+    pol = params(rfn)[0]
+    pops = [c for c in walk_local(rfn) if isinstance(c, ast.Call) and isinstance(c.func, ast.Attribute) and c.func.attr == 'pop' and isinstance(c.func.value, ast.Name)]
+    okr = False
+    if len(pops) == 1 and not pops[0].args and isinstance(pops[0]._parent, ast.Assign) and isinstance(pops[0]._parent.targets[0], ast.Name):
+        ev = pops[0]._parent.targets[0].id
+        cvar = pops[0].func.value.id
+        cvals = rrd.values(node_of_expr(rg, pops[0]), cvar)
+        from_cache = len(cvals) == 1 and U(cvals[0]).startswith('self.policy_cache.get(%s' % pol)
+        assigns = {struct_of(s.targets[0].value): s.value for s in walk_local(rfn) if isinstance(s, ast.Assign) and isinstance(s.targets[0], ast.Subscript) and struct_of(s.targets[0].value)}
+        okr = from_cache and U(assigns.get('policy_store')) == '%s[%s]' % (ev, pos_store) and U(assigns.get('policy_map')) == '%s[%s]' % (ev, pos_map)
+    dps = params(dfn)
+    filt = [c for c in ast.walk(dfn) if isinstance(c, ast.Compare)]
+    okd = any(cmp_parts(c) and cmp_parts(c)[1] == 'Eq' and isinstance(cmp_parts(c)[0], ast.Subscript) and isinstance(cmp_parts(c)[0].slice, ast.Constant)
+              and cmp_parts(c)[0].slice.value == pos_map and isinstance(cmp_parts(c)[2], ast.Name) and cmp_parts(c)[2].id == dps[1] for c in filt)
+    return {'restore': (okr, 'matched by shape'), 'disassociate': (okd, 'matched by shape')}
+
+
+def fold_shadow_helpers(ctx, ms, rfn, dfn, pos_map, pos_store, width):
+    """Both helpers are pure functions of (policy_cache, policy_store, policy_map): fold them over every shadow stack of up to 4 entries
+    owned by files {A, B, C} (and over a name without a stack).  Returns None when the code leaves what can be folded."""
+    import itertools
+    from ..fold import Folder, Unfoldable, Raised, Opaque
+    if width is None or pos_map is None or pos_store is None or pos_map == pos_store or max(pos_map, pos_store) >= width:
+        return None
+
+    def entry(i, f):
+        e = ['t%d' % i] * width
+        e[pos_map] = f
+        e[pos_store] = 'def%d%s' % (i, f)
+        return tuple(e)
+
+    def world(stack):
+        cache = {'q': [entry(9, 'Z')]}
+        if stack is not None:
+            cache['p'] = [entry(i, f) for i, f in enumerate(stack)]
+        return {'__attrs__': ('policy_cache', 'policy_store', 'policy_map', 'logger'), 'logger': Opaque('logger'),
+                'policy_cache': cache, 'policy_store': {'p': 'cur', 'q': 'qdef'}, 'policy_map': {'p': 'F', 'q': 'Y'}}
+
+    stacks = [None] + [list(t) for n in range(0, 5) for t in itertools.product('ABC', repeat=n)]
+    methods = dict(ms)
+    out = {}
+    n_cases = 0
+    try:
+        # disassociate(policy, file)
+        bad = None
+        for st in stacks:
+            for f in ('A', 'B'):
+                w = world(st)
+                fo = Folder(methods=methods, steps=40000)
+                try:
+                    fo.call_method(dfn, w, ['p', f], {})
+                except Raised as ex:
+                    bad = bad or 'raises %s for the stack %s and file %s' % (ex.name, st, f)
+                    continue
+                n_cases += 1
+                want = [entry(i, g) for i, g in enumerate(st or []) if g != f]
+                got = w['policy_cache'].get('p', [])
+                if list(got) != want or w['policy_cache'].get('q') != [entry(9, 'Z')] or w['policy_store'] != {'p': 'cur', 'q': 'qdef'} or w['policy_map'] != {'p': 'F', 'q': 'Y'}:
+                    bad = bad or 'with the shadow stack owned by %s, dropping file %s leaves entries of %s' % (st, f, [e[pos_map] for e in got])
+        out['disassociate'] = (bad is None, bad or 'folded over %d stacks x 2 files' % len(stacks))
+        # restore_or_delete(policy)
+        bad = None
+        for st in stacks:
+            w = world(st)
+            fo = Folder(methods=methods, steps=40000)
+            try:
+                fo.call_method(rfn, w, ['p'], {})
+            except Raised as ex:
+                bad = bad or 'raises %s for the stack %s' % (ex.name, st)
+                continue
+            n_cases += 1
+            rest_ok = w['policy_cache'].get('q') == [entry(9, 'Z')] and w['policy_store'].get('q') == 'qdef' and w['policy_map'].get('q') == 'Y'
+            if not st:
+                ok = 'p' not in w['policy_store'] and 'p' not in w['policy_map'] and not w['policy_cache'].get('p')
+                msg = 'with nothing shadowed the name stays in %s' % [k for k in ('policy_store', 'policy_map') if 'p' in w[k]]
+            else:
+                last = entry(len(st) - 1, st[-1])
+                ok = w['policy_store'].get('p') == last[pos_store] and w['policy_map'].get('p') == last[pos_map] and list(w['policy_cache'].get('p', [])) == [entry(i, g) for i, g in enumerate(st[:-1])]
+                msg = 'with the shadow stack owned by %s the restored definition is %r owned by %r, stack left %s' % (st, w['policy_store'].get('p'), w['policy_map'].get('p'), [e[pos_map] for e in w['policy_cache'].get('p', [])])
+            if not (ok and rest_ok):
+                bad = bad or (msg if not ok else 'another policy is disturbed')
+        out['restore'] = (bad is None, bad or 'folded over %d stacks' % len(stacks))
+    except Unfoldable as ex:
+        ctx.count('shadow_helpers_unfoldable', 1)
+        return None
+    ctx.count('shadow_helper_cases_folded', n_cases)
+    return out
+
 def run(ctx):
     src = ctx.src
     for rid, text in (
@@ -785,27 +877,18 @@ def run(ctx):
               'a definition owned by another file is pushed (owner at tuple[%s], definition at tuple[%s]) before the overwrite; new names get an empty stack' % (pos_map, pos_store),
               'an existing definition owned by another file can be overwritten without being pushed on the shadow stack first')
     rfn = ms['restore_or_delete_policy']
-    rg, rrd = graphs['restore_or_delete_policy']
-    pol = params(rfn)[0]
-    pops = [c for c in walk_local(rfn) if isinstance(c, ast.Call) and isinstance(c.func, ast.Attribute) and c.func.attr == 'pop' and isinstance(c.func.value, ast.Name)]
-    okr = False
-    if len(pops) == 1 and not pops[0].args and isinstance(pops[0]._parent, ast.Assign):
-        ev = pops[0]._parent.targets[0].id
-        cvar = pops[0].func.value.id
-        cvals = rrd.values(node_of_expr(rg, pops[0]), cvar)
-        from_cache = len(cvals) == 1 and U(cvals[0]).startswith('self.policy_cache.get(%s' % pol)
-        assigns = {struct_of(s.targets[0].value): s.value for s in walk_local(rfn) if isinstance(s, ast.Assign) and isinstance(s.targets[0], ast.Subscript) and struct_of(s.targets[0].value)}
-        okr = from_cache and U(assigns.get('policy_store')) == '%s[%s]' % (ev, pos_store) and U(assigns.get('policy_map')) == '%s[%s]' % (ev, pos_map)
-    ctx.check(okr, 'C18.R5', 'PolicyDirectoryMonitor.restore_or_delete_policy|restore-last-entry', '%s:%s' % (MONITOR, rfn.lineno),
-              'restore pops the last shadow entry and re-installs definition/owner from the positions it was pushed with',
-              'restore does not pop the most recent shadow entry or reads the wrong tuple positions')
     dfn = ms['disassociate_policy_and_file']
-    dps = params(dfn)
-    filt = [c for c in ast.walk(dfn) if isinstance(c, ast.Compare)]
-    okd = any(cmp_parts(c) and cmp_parts(c)[1] == 'Eq' and isinstance(cmp_parts(c)[0], ast.Subscript) and isinstance(cmp_parts(c)[0].slice, ast.Constant)
-              and cmp_parts(c)[0].slice.value == pos_map and isinstance(cmp_parts(c)[2], ast.Name) and cmp_parts(c)[2].id == dps[1] for c in filt)
+    verdicts = fold_shadow_helpers(ctx, ms, rfn, dfn, pos_map, pos_store, len(pushes[0][1].args[0].elts) if ok5 else None) if ok5 else None
+    if verdicts is None:
+        verdicts = shadow_helpers_by_shape(rfn, dfn, graphs, pos_map, pos_store)
+        ctx.need(ok5 is False or all(v[0] for v in verdicts.values()), 'unrecognised construct: the shadow-stack helpers of PolicyDirectoryMonitor can neither be folded nor matched')
+    okr, why_r = verdicts['restore']
+    ctx.check(okr, 'C18.R5', 'PolicyDirectoryMonitor.restore_or_delete_policy|restore-last-entry', '%s:%s' % (MONITOR, rfn.lineno),
+              'restore pops the last shadow entry and re-installs definition/owner from the positions it was pushed with; with nothing shadowed the name leaves store, map and cache (%s)' % why_r,
+              'restore does not pop the most recent shadow entry or reads the wrong tuple positions: %s' % why_r)
+    okd, why_d = verdicts['disassociate']
     ctx.check(okd, 'C18.R5', 'PolicyDirectoryMonitor.disassociate_policy_and_file|filters-on-owner-position', '%s:%s' % (MONITOR, dfn.lineno),
-              'shadow entries are selected by their owner-file position', 'disassociate does not select shadow entries by the owner-file position the push uses')
+              'exactly the shadow entries of the given file are dropped, the others keep their order (%s)' % why_d, 'disassociate does not drop exactly the shadow entries owned by the file: %s' % why_d)
 
     # ---------------- R12 a removed file is forgotten entirely
     ctx.rule('C18.R12', 'when a file leaves the policy directory, scan_policies forgets its modification time together with its policies: in the loop over the files that disappeared, self.file_timestamps loses the entry of that file on every path - otherwise a file that comes back with the same (or an older) modification time, e.g. restored from a backup or moved out and in again, is never loaded again and the names it defines stay missing or shadowed')
